@@ -464,6 +464,7 @@ func nativeReplay(r Run, replayPath string, p *sym.Program) (bool, string) {
 		defer func() {
 			for _, f := range vFailures {
 				fmt.Printf("REPLAY-FAIL: %s\n", f)
+				t.Fail()
 			}
 			vFailures = nil
 		}()
@@ -478,7 +479,15 @@ func nativeReplay(r Run, replayPath string, p *sym.Program) (bool, string) {
 	stress := !r.Synctest && (kindDoc.Kind == "deadlock" || kindDoc.Kind == "race")
 	switch {
 	case r.Synctest:
-		sb.WriteString("\tvSynctest = true\n\tsynctest.Run(run)\n")
+		// Inside the bubble time is virtual, but which ready case a select
+		// takes and which runnable goroutine goes first is still the native
+		// scheduler's choice: the run is repeated on the same inputs until a
+		// failure shows (a crash or a bubble deadlock ends the process).
+		reps := 5
+		if kindDoc.Kind != "assert" {
+			reps = 40
+		}
+		fmt.Fprintf(&sb, "\tvSynctest = true\n\tfor it := 0; it < %d && !t.Failed(); it++ {\n\t\tvResetReplay()\n\t\tsynctest.Run(run)\n\t}\n", reps)
 	case stress:
 		// A schedule-dependent counterexample (lock-order deadlock, data race) of a
 		// wall-clock harness: the native scheduler cannot be told which
